@@ -13,6 +13,7 @@ import suite_table
 import suite_csv
 import suite_repr
 import suite_repo
+import suite_misc
 
 
 def c04(rep, tier, seed):
@@ -124,6 +125,9 @@ def c01(rep, tier, seed):
     # table-level operations never change their operands
     suite_table.gen(rep, tier, ["tassign"] + ([] if tier == "quick" else ["select", "arith"]), ("refused_changes_nothing", "operands_unchanged"))
     suite_table.enumerated(rep, "struct", ("operands_unchanged",))
+    if tier != "quick":
+        # growth: further value-returning operations (unique, argsort, @, peek) must be pure as well
+        suite_misc.gen(rep, ["unique", "argsort", "dot", "matvec", "sample"], ("operands_unchanged",))
 
 
 def c02(rep, tier, seed):
